@@ -3,7 +3,7 @@
    Comp.Compile panics, C15-2: a complete named type is never completed again); [before_fix]/[tbefore] =
    the code before them (kept for the refutations of DESIGN section 7 #10 and #11). *)
 From Coq Require Import List ZArith Bool.
-From Verif Require Import C14.Model C14.Proof C15.Model C15.Proof.
+From Verif Require Import C14.Model C14.Proof C15.Model C15.Proof C15.Code C15.CodeProof.
 Import ListNotations.
 Open Scope Z_scope.
 
@@ -51,9 +51,9 @@ Print Assumptions C15_failed_eval_preserves_bindings_history.
 
 (* Comp.DeclFunc's deferred restore: after `func f ...` whose body does not compile every name, f included,
    has the bind it had before (this held before the snapshot existed, for this one kind of failure) *)
-Theorem C15_func_redefinition_restored : forall st f y,
-  out_status (evalInput before_fix st [SFunc f false]) = CompileError /\
-  bget (binds (scomp (out_state (evalInput before_fix st [SFunc f false])))) y = bget (binds (scomp st)) y.
+Theorem C15_func_redefinition_restored : forall st f t y,
+  out_status (evalInput before_fix st [SFunc f t false]) = CompileError /\
+  bget (binds (scomp (out_state (evalInput before_fix st [SFunc f t false])))) y = bget (binds (scomp st)) y.
 Proof. exact func_redefinition_restored_eval. Qed.
 Print Assumptions C15_func_redefinition_restored.
 
@@ -110,6 +110,22 @@ Theorem C15_type_redefinition_refuted_before_fix :
 Proof. exact type_redefinition_refuted_before_fix. Qed.
 Print Assumptions C15_type_redefinition_refuted_before_fix.
 
+(* the top-level code buffer Comp.Code (Code.v; current code = after commit C15-3: compileDecl's single var/const path
+   empties the buffer like compileNode): for EVERY history of inputs - failing at any declaration after having
+   appended any number of statements to the buffer - and every initial buffer content, the statements executed are
+   exactly, input by input, the statements compiled from that input when it compiled as a whole, and nothing for a
+   failed input: no statement of a failed input ever runs, neither during that input nor later *)
+Theorem C15_no_code_of_failed_input_runs_later : forall h i b t,
+  ctrace (cRun cfixed i (mkCst b t) h) = t ++ specTrace i h.
+Proof. exact stale_buffer_never_runs. Qed.
+Print Assumptions C15_no_code_of_failed_input_runs_later.
+
+(* on the model of the code before commit C15-3: `x, y := hook(), nil` (fails) . `var z = 5`  =>  hook() runs *)
+Theorem C15_stale_code_runs_refuted_before_fix :
+  exists h, specTrace 0 h = [] /\ ctrace (cRun cbefore 0 cst0 h) = [0].
+Proof. exact stale_code_runs_before_fix. Qed.
+Print Assumptions C15_stale_code_runs_refuted_before_fix.
+
 (* ---------------- non-vacuity: the same witnesses on the current code ---------------- *)
 Example C15_ex_var_after_fix :
   let st := runHistory fixed state0 h10 in
@@ -126,4 +142,11 @@ Example C15_ex_failed_input :
   let s := tRun tfixed tst0 h11 in
   let r := tEval tfixed s [DType 1 30; DVar 2 1; DStmt; DBad] in
   snd r = false /\ typeOfVar (fst r) 2 = Some 10 /\ typeNamed (fst r) 1 = Some 20 /\ ran (fst r) = ran s.
+Proof. vm_compute. auto. Qed.
+
+(* code buffer, current code: the witness of C15_stale_code_runs_refuted_before_fix executes nothing; a later valid
+   `var h = hook()` executes its own statement only *)
+Example C15_ex_stale_after_fix :
+  ctrace (cRun cfixed 0 cst0 stale_witness) = [] /\
+  ctrace (cRun cfixed 0 cst0 (stale_witness ++ [[mkCd PExtra 1 true]])) = [2].
 Proof. vm_compute. auto. Qed.
